@@ -449,7 +449,8 @@ type obs struct {
 	Table  []lockRec
 	U      [2]userObs
 	Remote []string
-	Key    uint64
+	Key    uint64 // canonical key, symmetric in the two users (for alphabets in which both users act alike)
+	KeyA   uint64 // canonical key without the user symmetry (for alphabets with one acting user)
 }
 
 func shortSha(b []byte) string {
@@ -557,7 +558,7 @@ func (w *world) observe() *obs {
 		}
 	}
 	o.Remote = readRefs(filepath.Join(w.root, "remote.git"), func(n string) string { return n })
-	o.Key = o.canonKey()
+	o.Key, o.KeyA = o.canonKey()
 	return o
 }
 
@@ -671,12 +672,13 @@ func (o *obs) canon(order [2]int) string {
 	return sb.String()
 }
 
-func (o *obs) canonKey() uint64 {
+func (o *obs) canonKey() (sym, asym uint64) {
 	a, b := o.canon([2]int{0, 1}), o.canon([2]int{1, 0})
+	asym = vx.Hash64(a)
 	if b < a {
 		a = b
 	}
-	return vx.Hash64(a)
+	return vx.Hash64(a), asym
 }
 
 func (o *obs) tableAt(path string) *lockRec {
